@@ -62,7 +62,8 @@ AuxInit == [tid |-> "", mem |-> MemInit,
             inTxn |-> FALSE,
             txnSubmits |-> <<>>,     \* paths for which a hash job was queued inside the open transaction
             draining |-> FALSE,
-            dispatchedAfterFail |-> FALSE]
+            dispatchedAfterFail |-> FALSE,
+            failedOnChange |-> FALSE]   \* a step failed in this phase after one of its inputs changed while it ran
 
 CounterNames == {"amend", "read", "final_reads_checked", "tainted", "finalize_end", "removed_files", "write", "commit", "wellformed", "transition", "pop_dispatch", "pop_none", "cmd_start",
                  "phase_end", "rpc_reject", "rpc_ok", "hold", "traces", "pop_none_with_eligible", "hash_submit"}
@@ -182,6 +183,10 @@ OnCommit(e, lineNo) ==
                   \o Mk(e, lineNo, "C03", c03)
     /\ aux' = [aux EXCEPT
           !.inTxn = FALSE,
+          !.failedOnChange = @ \/ (~IsNoState(st) /\ \E s \in Steps(new) :
+                                      /\ new.nodes[s].sstate = "FAILED" /\ (s \notin Keys(st) \/ st.nodes[s].sstate # "FAILED")
+                                      \* (tainted by an external edit, not by a refused amendment)
+                                      /\ jobsOf(s) # {} /\ lastJob(s) \in DOMAIN aux.taintPath),
           !.inflight = IF IsNoState(st) THEN @ ELSE SettleInflight(st, new, @),
           !.redefInflight = IF IsNoState(st) \/ e.fn # "define_step" THEN @
                             ELSE @ \cup {s \in aux.inflight : s \in Keys(st) /\ s \in Keys(new)
@@ -458,17 +463,24 @@ OnPhaseEnd(e, lineNo) ==
                                  \* "the content recorded for that file at the end of the build";
                                  \* a file that the graph itself marks as not up to date (OUTDATED,
                                  \* PLANNED, MISSING) re-pends its consumers when it comes back
-                                 st.nodes["file:" \o r[1]].fstate \in Available /\
+                                 \* (an OUTDATED file carries a recorded content as well: the one a failed
+                                 \* run left behind, or found when it re-hashed its inputs)
+                                 st.nodes["file:" \o r[1]].fstate \in Available \cup {"OUTDATED"} /\
+                                 st.nodes["file:" \o r[1]].fhash # NULL /\
                                  st.nodes["file:" \o r[1]].fhash # r[2]}} :
                     s \in {s \in DOMAIN aux.finalReads : s \in Keys(st) /\ st.nodes[s].sstate = "SUCCEEDED"}}
+      \* C03: "an input that changes underneath a running step makes it fail and stops further dispatch":
+      \* the phase in which that happened ends with the scheduler drained, keep-going or not
+      c03d == IF aux.failedOnChange /\ ~e.draining
+              THEN {<<"dispatch_not_stopped_after_an_input_changed_under_a_running_step", "">>} ELSE {}
   IN /\ bad' = bad \o Mk(e, lineNo, "C10", left) \o Mk(e, lineNo, "C19", c19) \o Mk(e, lineNo, "C11", c11)
-                   \o Mk(e, lineNo, "C03", c03)
+                   \o Mk(e, lineNo, "C03", c03 \cup c03d)
      /\ cnt' = [Bump(cnt, "phase_end") EXCEPT !["final_reads_checked"] = @ + Cardinality(DOMAIN aux.finalReads)]
      /\ aux' = [aux EXCEPT !.diskBefore = e.disk.files, !.phaseRc = e.rc, !.finalReads = EmptyFn,
                             !.recordedBefore = [p \in {st.nodes[f].label : f \in {f \in Keys(st) : st.nodes[f].kind = "file"
                                                                                      /\ st.nodes[f].fhash # NULL}}
                                                  |-> st.nodes["file:" \o p].fhash],
-                           !.tainted = {}, !.inputChanged = FALSE, !.taintPath = EmptyFn,
+                           !.tainted = {}, !.inputChanged = FALSE, !.taintPath = EmptyFn, !.failedOnChange = FALSE,
                            !.refreshed = {}, !.refreshedPhase = {}]
      /\ UNCHANGED st
 
